@@ -329,12 +329,15 @@ def parseDefects (flags : List String) : Defects :=
     stmtNotAtomicInSession := flags.contains "stmtNotAtomicInSession",
     indexNotMaintainedOnKeyUpdate := flags.contains "indexNotMaintainedOnKeyUpdate",
     indexOneEntryPerKey := flags.contains "indexOneEntryPerKey",
-    uniqueNotRecheckedAtCommit := flags.contains "uniqueNotRecheckedAtCommit" }
+    uniqueNotRecheckedAtCommit := flags.contains "uniqueNotRecheckedAtCommit",
+    commitChecksInsertedKeysOnly := flags.contains "commitChecksInsertedKeysOnly",
+    createRefusedWhileNameHeld := flags.contains "createRefusedWhileNameHeld" }
 
 def defectNames : List String :=
   ["updateKeepsInserterXmin", "writeSetNeverRecorded", "xmaxNoneSeesAll", "ownDeleteWalksDeltas",
    "deleteKeepsStaleXmax", "deleteMarkSingleSlot", "stmtNotAtomicInSession",
-   "indexNotMaintainedOnKeyUpdate", "indexOneEntryPerKey", "uniqueNotRecheckedAtCommit"]
+   "indexNotMaintainedOnKeyUpdate", "indexOneEntryPerKey", "uniqueNotRecheckedAtCommit", "commitChecksInsertedKeysOnly",
+   "createRefusedWhileNameHeld"]
 
 def runLine (flags : List String) (line : String) : String :=
   match parseCase line with
